@@ -65,6 +65,25 @@ def copyToSelectedF.go (c : UCfg) (sh : Shape) (remote : Bool) (sel nw : Item) :
 def copyToSelectedF (c : UCfg) (sh : Shape) (remote : Bool) (ex : List Item) (sel nw : Item) :
     Outcome (List Item × Bool) := copyToSelectedF.go c sh remote sel nw ex
 
+/-- does the delete filter hit the item (no selector: every item) -/
+def hitOf (c : UCfg) (sh : Shape) (f : Filter) (x : Item) : Outcome Bool :=
+  match f.sel with
+  | some sel => selectorMatchF c sh sel x
+  | none => .ok true
+
+/-- the item as the delete filter leaves it (elements removed from a hit item) -/
+def delItem (sh : Shape) (f : Filter) (hit : Bool) (x : Item) : Item :=
+  match f.el with
+  | some el => if hit then removeElements sh el x else x
+  | none => x
+
+/-- is the item kept in the result (a selector without elements deletes the hit items) -/
+def delKeep (f : Filter) (hit : Bool) : Bool :=
+  match f.sel, f.el with
+  | _, some _ => true
+  | some _, none => !hit
+  | none, none => true
+
 def deleteFilteredF.go (c : UCfg) (sh : Shape) (remote : Bool) (f : Filter) :
     List Item → Outcome (List Item × List Item × Bool)
   | [] => .ok ([], [], true)
@@ -74,21 +93,13 @@ def deleteFilteredF.go (c : UCfg) (sh : Shape) (remote : Bool) (f : Filter) :
       | .panic s => .panic s
       | .ok (ip, out, _) => .ok (x :: ip, out, false)
     else
-      let m : Outcome Bool := match f.sel with
-        | some sel => selectorMatchF c sh sel x
-        | none => .ok true
-      match m with
+      match hitOf c sh f x with
       | .panic s => .panic s
       | .ok hit =>
         match deleteFilteredF.go c sh remote f xs with
         | .panic s => .panic s
         | .ok (ip, out, ok) =>
-          match f.sel, f.el with
-          | _, some el =>
-            if hit then let x' := removeElements sh el x; .ok (x' :: ip, x' :: out, ok)
-            else .ok (x :: ip, x :: out, ok)
-          | some _, none => if hit then .ok (x :: ip, out, ok) else .ok (x :: ip, x :: out, ok)
-          | none, none => .ok (x :: ip, x :: out, ok)
+          .ok (delItem sh f hit x :: ip, if delKeep f hit then delItem sh f hit x :: out else out, ok)
 
 def deleteFilteredF (c : UCfg) (sh : Shape) (remote : Bool) (ex : List Item) (f : Filter) :
     Outcome (List Item × List Item × Bool) := deleteFilteredF.go c sh remote f ex
@@ -171,7 +182,7 @@ theorem deleteFilteredF_go_asWritten (sh : Shape) (remote : Bool) (f : Filter) (
   induction ex with
   | nil => rfl
   | cons x xs ih =>
-    simp only [deleteFilteredF.go, deleteFiltered.go, selectorMatchF_asWritten, ih]
+    simp only [deleteFilteredF.go, deleteFiltered.go, hitOf, delItem, delKeep, selectorMatchF_asWritten, ih]
     split
     · cases deleteFiltered.go sh remote f xs with
       | panic s => rfl
@@ -182,7 +193,7 @@ theorem deleteFilteredF_go_asWritten (sh : Shape) (remote : Bool) (f : Filter) (
         simp only []
         cases deleteFiltered.go sh remote ⟨none, fe⟩ xs with
         | panic s => rfl
-        | ok t => cases fe <;> rfl
+        | ok t => cases fe <;> simp
       | some sel =>
         simp only []
         cases selectorMatch sh sel x with
@@ -191,7 +202,7 @@ theorem deleteFilteredF_go_asWritten (sh : Shape) (remote : Bool) (f : Filter) (
           simp only []
           cases deleteFiltered.go sh remote ⟨some sel, fe⟩ xs with
           | panic s => rfl
-          | ok t => cases fe <;> rfl
+          | ok t => cases fe <;> cases hit <;> simp
 
 theorem mergeF_asWritten (sh : Shape) (remote : Bool) (s1 s2 : List Item) :
     mergeF .asWritten sh remote s1 s2 = merge sh remote s1 s2 := by
